@@ -271,8 +271,12 @@ def advertised_d(entry, enc):
     if entry.family == "repetition":
         d = int(enc.repetition_factor)
     ecc = getattr(enc, "error_correction_capability", None)
+    if ecc is not None:
+        try:
+            t = int(ecc)
+        except Exception:
+            t = -1
     if ecc is not None and entry.family in ("rs",):
-        t = int(ecc)
         if d == 0:
             d = int(getattr(enc, "delta", 0) or 0)
     return d, t
@@ -303,4 +307,4 @@ def advertise_event(entry, enc, tid, enum_k):
     return {"ev": "Advertise", "tid": tid, "family": entry.family if entry.family not in ("cyclic", "cyclic_named", "linear", "systematic", "ldpc") else "other",
             "params": list(entry.params) if entry.family in ("hamming", "golay", "repetition", "spc", "rm", "bch", "rs") else [0],
             "rate6": int(round(float(enc.code_rate) * 1e6)), "d": d, "dexact": bool(entry.dexact and d > 0), "enum_k": enum_k,
-            "cyclic": cyc, "gpoly": gp, "perfect": bool(entry.perfect)}
+            "cyclic": cyc, "gpoly": gp, "perfect": bool(entry.perfect), "t": t}
